@@ -9,6 +9,7 @@ package proxy
 
 import (
 	"github.com/datastax/cql-proxy/codecs"
+	"github.com/datastax/cql-proxy/proxycore"
 	"github.com/datastax/go-cassandra-native-protocol/frame"
 	"github.com/datastax/go-cassandra-native-protocol/message"
 	"github.com/datastax/go-cassandra-native-protocol/primitive"
@@ -17,6 +18,7 @@ import (
 var _ message.Message // the contracts below name types of packages message and codecs
 var _ *codecs.PartialQuery
 var _ *frame.Frame
+var _ *proxycore.Conn
 
 // ---------------------------------------------------------------------------------------------
 // C05: the documented default retry policy (README / doc comments of RetryPolicy), as a table.
@@ -434,6 +436,7 @@ func verifSpecCL(lowered string) primitive.ConsistencyLevel {
 
 //@ loop proxy.client.Receive #1
 //@   invariant c.$sent == old(c.$sent) && c.$executed == old(c.$executed) && $reqStarted == old($reqStarted)
+//@   invariant c.$registered == (old(c.$registered) || exists(k, 0, rangeindex + 1, msg.EventTypes[k] == primitive.EventTypeSchemaChange))
 
 // C13: OPTIONS, STARTUP, REGISTER and unknown opcodes are answered locally with exactly one frame and
 // never forwarded; a version above the configured maximum or below v3 gets exactly one protocol
@@ -441,7 +444,7 @@ func verifSpecCL(lowered string) primitive.ConsistencyLevel {
 // C01: every successfully decoded frame of an accepted version gets exactly one answer initiated:
 // one local frame or one backend request. A frame that cannot be decoded closes the connection
 // (error return) without any answer.
-//@ func proxy.client.Receive [C01, C13]
+//@ func proxy.client.Receive [C01, C13, C14]
 //@   requires c != nil && c.proxy != nil && c.conn != nil && c.codec != nil && inv(c.proxy) && c.proxy.cluster != nil && c.preparedSystemQuery != nil
 //@   requires !$rxDecoded && !$rxBodyTried && !$selReached && !$useTried
 //@   after frame.RawCodec.DecodeRawFrame#1 set $rxDecoded = (result1 == nil); $rxVersion = result0.Header.Version; $rxStream = result0.Header.StreamId
@@ -453,6 +456,8 @@ func verifSpecCL(lowered string) primitive.ConsistencyLevel {
 //@   ensures local-opcodes: $rxBodyTried && $rxBodyOK && !typeis($rxMsg, *message.Prepare) && !typeis($rxMsg, *codecs.PartialExecute) && !typeis($rxMsg, *codecs.PartialQuery) && !typeis($rxMsg, *codecs.PartialBatch) ==> c.$sent == old(c.$sent) + 1 && c.$executed == old(c.$executed) && $reqStarted == old($reqStarted) && $lastStream == $rxStream && $lastClient == c
 //@   ensures handshake-replies: $rxBodyTried && $rxBodyOK && typeis($rxMsg, *message.Options) ==> typeis($lastMsg, *message.Supported)
 //@   ensures register-reply: $rxBodyTried && $rxBodyOK && typeis($rxMsg, *message.Register) ==> typeis($lastMsg, *message.Ready)
+//@   ensures register-membership: $rxBodyTried && $rxBodyOK && typeis($rxMsg, *message.Register) && as($rxMsg, *message.Register) != nil ==> c.$registered == (old(c.$registered) || exists(k, 0, len(as($rxMsg, *message.Register).EventTypes), as($rxMsg, *message.Register).EventTypes[k] == primitive.EventTypeSchemaChange))
+//@   ensures only-register-registers: !($rxBodyTried && $rxBodyOK && typeis($rxMsg, *message.Register)) ==> c.$registered == old(c.$registered)
 //@   modifies *, c.$registered, c.$sent, c.$executed, $reqStarted, $sends, $convertedBody, $lastReq, $lastMsg, $lastStream, $lastVersion, $lastClient, $qhHandled, $selReached, $selDot, $selErr, $selQual, $selTable, $exId, $exLocal, $useTried, $useOK, $useKs, $useVersion, $useCompression, $rxDecoded, $rxVersion, $rxStream, $rxBodyTried, $rxBodyOK, $rxMsg
 
 // ---------------------------------------------------------------------------------------------
@@ -621,3 +626,47 @@ func verifSpecCL(lowered string) primitive.ConsistencyLevel {
 //@ func proxy.client.maybeStorePreparedMetadata [C04]
 //@   requires c != nil && raw != nil && raw.Header != nil && c.proxy != nil && c.codec != nil
 //@   modifies nothing
+
+// ---------------------------------------------------------------------------------------------
+// C14: schema-change events
+//   cl.$registered: the client is a delivery target (abstract view of Proxy.eventClients)
+// ---------------------------------------------------------------------------------------------
+
+// removeClient: the client stops being a delivery target and leaves the client table.
+//@ func proxy.Proxy.removeClient [C14, C18]
+//@   requires p != nil && cl != nil && p.mu != nil && p.clients != nil
+//@   defines !cl.$registered
+//@   modifies p.eventClients, p.clients[*], cl.$registered
+
+// OnEvent: only schema-change events are fanned out (one Range over the registered clients, with a
+// frame on stream -1 in the negotiated version carrying the event's message); any other event
+// causes no write at all.
+//@ func proxy.Proxy.OnEvent [C14]
+//@   local $oeRanged bool = false
+//@   local $oeFrame *frame.Frame = nil
+//@   local $oeStream int16 = 0
+//@   local $oeVersion primitive.ProtocolVersion = 0
+//@   local $oeMsg message.Message = nil
+//@   requires p != nil && p.cluster != nil
+//@   after frame.NewFrame#1 set $oeFrame = result
+//@   before sync.Map.Range#1 set $oeRanged = true; $oeStream = $oeFrame.Header.StreamId; $oeVersion = $oeFrame.Header.Version; $oeMsg = $oeFrame.Body.Message
+//@   ensures only-schema-events: $oeRanged == typeis(event, *proxycore.SchemaChangeEvent)
+//@   ensures event-frame: $oeRanged ==> $oeStream == -1 && $oeVersion == old(p.cluster.NegotiatedVersion) && $oeMsg == old(as(event, *proxycore.SchemaChangeEvent).Message)
+//@   modifies *
+
+// The per-client step of the fan-out: exactly one frame is enqueued on that client's connection;
+// if that fails, that client's connection - and no other - is closed.
+//@ func proxy.Proxy.OnEvent$1 [C14]
+//@   local $evWrites int = 0
+//@   local $evWriteConn *proxycore.Conn = nil
+//@   local $evWriteFailed bool = false
+//@   local $evCloses int = 0
+//@   local $evCloseConn *proxycore.Conn = nil
+//@   requires typeis(key, *client) && as(key, *client) != nil && as(key, *client).conn != nil && p != nil
+//@   before proxycore.Conn.Write#1 set $evWrites = $evWrites + 1; $evWriteConn = arg0
+//@   after proxycore.Conn.Write#1 set $evWriteFailed = (result != nil)
+//@   before proxycore.Conn.Close#1 set $evCloses = $evCloses + 1; $evCloseConn = arg0
+//@   ensures one-frame: $evWrites == 1 && $evWriteConn == as(key, *client).conn
+//@   ensures close-only-on-failure: ($evCloses == 1) == $evWriteFailed && $evCloses <= 1 && ($evCloses == 1 ==> $evCloseConn == as(key, *client).conn)
+//@   ensures continues: result
+//@   modifies *
